@@ -466,3 +466,16 @@ Theorem anneal_bool_none (quso : bool) s tab Ts num io initial seed L : (num <= 
   (if quso then qubo_to_quso (src_kind s) (src_items s) else pubo_to_puso (src_kind s) (src_items s)) = Ok L ->
   run_bool quso s tab Ts num io initial seed = AResults [].
 Proof. intros H EL. unfold run_bool. rewrite EL, anneal_spin_none; [reflexivity| exact H]. Qed.
+
+(* the annealers on a labelled model whose variables were renumbered by the user *)
+Theorem anneal_spin_renumbered (quso : bool) m mpx tab Ts num io initial seed l :
+  Inv m -> wf (kd m) (tm m) -> is_labelled (kd m) = true ->
+  (forall i, In i (map fst mpx) <-> In i (map fst (mp m))) -> NoDup (map fst mpx) -> snd_ok mpx ->
+  init_pm1 initial -> (0 < num)%Z ->
+  run_spin quso (SrcModel (set_mapping m mpx)) tab Ts num io initial seed = AResults l ->
+  result_ok (spin_vars quso (SrcModel (set_mapping m mpx))) (tm m) (Z.to_nat num) l.
+Proof.
+  intros HI Hw Hl Hs Hn Hok Hi Hnum H.
+  apply (anneal_spin_spec quso (SrcModel (set_mapping m mpx)) tab Ts num io initial seed l); try assumption.
+  split; [apply set_mapping_Inv; assumption| exact Hw].
+Qed.
